@@ -1,6 +1,8 @@
 """C07 -- each preprocessing step does what its description says."""
 import warnings
 
+import sys
+
 import numpy as np
 
 from .. import common, gen_all, curves, fits
@@ -474,7 +476,7 @@ def replay(rec):
     cfg = pl.get("cfg") or {}
     name = cfg.get("curve") or pl.get("curve")
     if not name:
-        return True
+        return common.replay_by_rerun(sys.modules[__name__], rec)
 
     class R:
         bad = False
@@ -495,4 +497,4 @@ def replay(rec):
                 run_curve(R(), nm, cols, k, pipelines("thorough", R.rng),
                           [], [])
                 return not R.bad
-    return True
+    return common.replay_by_rerun(sys.modules[__name__], rec)
